@@ -87,6 +87,10 @@ Fails(r) ==
     \o Clause("rerun_in_same_process_identical", r.rerun = [k \in 1..Len(r.comps) |-> r.comps[k].tok])
     \o Clause("rerun_in_fresh_process_identical", r.fresh = [k \in 1..Len(r.comps) |-> r.comps[k].tok])
     \o Clause("saved_table_has_same_rows", r.saved = Pairs(r.comps))
+    \* the catalogue a fresh finder object holds (what the command line program writes) is the
+    \* catalogue of this run, whatever ran before in the same process
+    \o Clause("finder_object_holds_exactly_this_run", r.attr = [k \in 1..Len(r.comps) |-> r.comps[k].tok]
+                                                        /\ r.attr2 = r.rerun)
 
 Next == BatchNext(Fails) /\ UNCHANGED <<mode, work, isle_num, batch, inbatch, rows>>
 Spec == BatchInit /\ mode = "blind" /\ work = <<>> /\ isle_num = 0 /\ batch = 0 /\ inbatch = 0 /\ rows = <<>>
